@@ -138,7 +138,8 @@ FIELD_VALUES = {
                  3: ["2", "-1", "1"], 4: ["-1", "256", "65536", "-2147483649"]},
 }
 ODD_INTS = [" 1", "1 ", "\t1", "+1", "1_0", "007", "-0", "１", "٣", "00", "+0"]
-BAD_INTS = ["", "abc", "1a", "1.0", "1e3", "0x10", "1.5", "--1", "1;", "None", "true", "١٢x", "½", " "]
+BAD_INTS = ["", "abc", "1a", "1.0", "1e3", "0x10", "1.5", "--1", "1;", "None", "true", "١٢x", "½", " ",
+            "²", "³", "¹²", "①", "⁴", "+-6", "-+1", "٣²", "1²", "Ⅷ", "六"]
 HUGE_INTS = ["1" + "0" * 30, "9" * 400, "7" * 5000, "-" + "3" * 4500]
 ABSURD = {
     0: ["abc", "", "nan", "inf", "-inf", "1e999", "-3", "150", "12.5", "0x10", "٥", "1e2", " 7", "1_0", "99.5", "101",
@@ -223,4 +224,7 @@ def maybe_tcp(rng, scn: dict, share: float = 0.2) -> dict:
     if rng.random() < share:
         scn.setdefault("cfg", {})["link"] = "tcp"
         scn["tapes"] = dict(tapes, **{"link.chunk": [rng.choice([0, 0, 1, 3, 7]) for _ in range(rng.randint(0, 10))]})
+        if rng.random() < 0.3:
+            # the link stalls (peer not reading) for a while during some writes; it never breaks
+            scn["tapes"]["link.stall"] = [rng.choice([0, 0, 0, 2, 15, 40]) for _ in range(rng.randint(1, 8))]
     return scn
